@@ -92,26 +92,29 @@ VOCAB = ["", "LIS2", "HOST", "P", "E1394-97", "1", "20240617102144", "Lab 7", "a
          "a\x0bb", "\x0c", "x\x1cy", "\x1d7", "id\x1e", "n\x85", "tab\there", "\r"[:0] + "nul\x00"]
 
 
-def hub_header(module, token=None):
-    """a header whose sender *name* is always "LabHub" (a middleware in front of several analysers) and which names
+def hub_header(module, token=None, name="LabHub"):
+    """a header whose sender *name* is `name` (a middleware in front of several analysers) and which names
     `module`'s model (None / "generic": no supported model) in a later component or field, in a shape that module's own
     header schema accepts; None when that schema pins the sender (cobas c111, c311)"""
     if module in (None, "generic"):
-        return "H|\\^&|||LabHub^gw^1.0|||||HOST||P|1|20240101120000"
+        return "H|\\^&|||%s^gw^1.0|||||HOST||P|1|20240101120000" % name
     spec = tokens()[module]
     token = token or spec["tokens"][0]
     if module in ("roche_cobas_c111", "roche_cobas_c311"):
         return None
     if spec["behind"] == "|":
-        return "H|\\^&|||LabHub|||||%s||P|1|20240101120000" % token
+        return "H|\\^&|||%s|||||%s||P|1|20240101120000" % (name, token)
     if token.endswith("^"):
-        return "H|\\^&|||LabHub^%s1.0|||||HOST||P|1|20240101120000" % token
-    return "H|\\^&|||LabHub^x^%s^1.0|||||HOST||P|1|20240101120000" % token
+        return "H|\\^&|||%s^%s1.0|||||HOST||P|1|20240101120000" % (name, token)
+    return "H|\\^&|||%s^x^%s^1.0|||||HOST||P|1|20240101120000" % (name, token)
 
 
 def header(r, token_spec=None, token=None, near=None):
     """a header frame: H|\\^&|<id>|<pw>|<sender>|...; the token (if any) goes into the sender / receiver field"""
     fields = ["H", "\\^&"] + [r.choice(VOCAB) for _ in range(12)]
+    if r.random() < 0.25:
+        # long values in front of the sender (a UUID as message control id, a pass phrase): hundreds of characters
+        fields[r.choice([2, 3])] = "".join(r.choice("0123456789abcdef-") for _ in range(r.choice([40, 64, 65, 130, 400])))
     if token_spec is not None:
         if token_spec["behind"] == "|":
             fields[r.choice([4, 9])] = token           # a whole field
